@@ -286,6 +286,8 @@ func checkMain(args []string) int {
 				rc := replayCase{ID: fmt.Sprintf("v%d", k), Entry: r.spec.Entry, Params: r.params, API: v.API}
 				if v.Unreached != "" {
 					rc.Repeat, rc.Want = 3000, v.Unreached
+				} else if r.params["SCHED"] == 1 {
+					rc.Repeat = 20000 // schedule-dependent: repeated under the real scheduler until it shows
 				}
 				cases = append(cases, rc)
 			}
@@ -637,6 +639,8 @@ func persistReplay(root, repo, prop string, r *jobRun, v symx.Violation) string 
 	cases := []replayCase{{ID: "v0", Entry: r.spec.Entry, Params: r.params, API: v.API}}
 	if v.Unreached != "" {
 		cases[0].Repeat, cases[0].Want = 3000, v.Unreached
+	} else if r.params["SCHED"] == 1 {
+		cases[0].Repeat = 20000
 	}
 	writeReplayDir(root, repo, dir, r, cases)
 	meta := map[string]any{"property": prop, "job": r.job.Name, "params": r.params, "assertion": v.Label, "panic": v.Panic, "kf": v.KF, "in_region": v.InRegion,
